@@ -23,3 +23,8 @@ impl<K, V, S> DerefMut for HashMap<K, V, S> {
         &mut self.0
     }
 }
+impl<K: Clone, V: Clone, S: Clone> Clone for HashMap<K, V, S> {
+    fn clone(&self) -> Self {
+        HashMap(self.0.clone())
+    }
+}
